@@ -124,4 +124,29 @@ theorem logF_ident (g : Grp) (eps : ℝ) (h : 0 ≤ eps) : logF g eps (identG g)
     rw [SO3Log_one eps h]
     simp [sim3.toList, Vec3.toList, DVec.zero, Grp.adim, Mat3.mulVec, Vec3.dot]
 
+/-! ## which branch is selected at the zero vector / identity (pass 4, auditor's item 1)
+
+`JlMat_zero`, `JlInvMat_zero`, `logF_ident` above hold for *any* coefficients (`hat 0 = 0`, and `x/0 = 0` in `ℝ`), so they do not show that
+the division-free branch is taken.  These do: the closed forms evaluate to other numbers at `0` under the `x/0 = 0` convention. -/
+
+theorem so3JlCoef_zero (eps : ℝ) (h : 0 ≤ eps) : so3JlCoef eps 0 = (1/2, 1/6) := by
+  have : ¬ eps < 0 := not_lt.mpr h
+  simp [so3JlCoef, lt_real, this, q_real]
+
+theorem so3JlInvCoef_zero (eps : ℝ) (h : 0 ≤ eps) : so3JlInvCoef eps 0 = 1/12 := by
+  have : ¬ eps < 0 := not_lt.mpr h
+  simp [so3JlInvCoef, lt_real, this, q_real]
+
+theorem so3LogFactor_identity (eps : ℝ) (h : 0 ≤ eps) : so3LogFactor eps 0 1 = 2 ∧ so3LogFactor eps 0 (-1) = -2 := by
+  have : ¬ eps < 0 := not_lt.mpr h
+  constructor <;> simp [so3LogFactor, lt_real, this, k_real] <;> norm_num
+
+theorem rxso3WsCoef_zero (eps : ℝ) (h : 0 ≤ eps) : rxso3WsCoef eps 0 0 = (1/2, 1/6, 1) := by
+  have : ¬ eps < 0 := not_lt.mpr h
+  simp [rxso3WsCoef, lt_real, this, q_real, k_real, sabs_real]
+
+/-- the closed forms, evaluated at `0` with `x/0 = 0`, give different numbers: the statements above do select a branch -/
+theorem closed_forms_at_zero_differ : ((1 - Real.cos 0) / (0 * 0) : ℝ) ≠ 1/2 ∧ ((2 * Real.arctan (0 / 1) / 0 : ℝ) ≠ 2) := by
+  constructor <;> norm_num
+
 end PP.AD
